@@ -283,6 +283,8 @@ type pipeLink struct {
 	closed   int32
 	useAfter int32 // transport operations the Conn performed after Close
 	capTabs  int32 // sends with a non-nil CapTable (contract breach by the Conn)
+
+	sentToConn int32 // messages the peer handed to the Conn
 }
 
 func newPipeLink(tr *opTracker) *pipeLink {
@@ -294,7 +296,10 @@ func (p *pipeLink) Name() string             { return "pipe" }
 func (p *pipeLink) Tracker() *opTracker      { return p.tr }
 func (p *pipeLink) ConnClosed() bool         { return atomic.LoadInt32(&p.closed) != 0 }
 
-func (p *pipeLink) PeerSendSegs(segs [][]byte) { p.toConn.put(connItem{segs: copySegs(segs)}) }
+func (p *pipeLink) PeerSendSegs(segs [][]byte) {
+	atomic.AddInt32(&p.sentToConn, 1)
+	p.toConn.put(connItem{segs: copySegs(segs)})
+}
 
 func (p *pipeLink) PeerSendStream(b []byte) {
 	a := parseFrames(b)
